@@ -1041,3 +1041,10 @@ M("C12-empty-string-keeps-old-value", "C12", "src/interrogatedb/interrogate_data
 M("C12-benign-clear-string-first", "C12", "src/interrogatedb/interrogate_datafile.cxx",
   "  // Skip one character of whitespace, and then read the string.\n  in.get();\n  str = \"\";", "  str.clear();\n  // Skip one character of whitespace, and then read the string.\n  in.get();",
   benign=True)
+
+M("C09-predefined-macro-keyed-by-option-text", "C09", "src/interrogate/interrogate.cxx",
+  "  parser._manifests[macro->_name] = macro;", "  parser._manifests[macro_name] = macro;",
+  expect="R09.3|")
+M("C09-benign-predefined-macro-insert", "C09", "src/interrogate/parse_file.cxx",
+  "  parser._manifests[macro->_name] = macro;", "  const std::string &key = macro->_name;\n  parser._manifests[key] = macro;",
+  benign=True, allow_broken=False)
